@@ -377,7 +377,7 @@ fn readers_from_source(component: &str) -> String {
 		"filter" => ("effect/filter.rs", "fn on_start_processing"),
 		_ => return "bad-op".into(),
 	};
-	let src = match std::fs::read_to_string(format!("/repo/crates/kira/src/{}", file)) {
+	let src = match std::fs::read_to_string(format!("{}/crates/kira/src/{}", std::env::var("KV_REPO").unwrap_or_else(|_| "/repo".to_string()), file)) {
 		Ok(s) => s,
 		Err(_) => return "no-source".into(),
 	};
